@@ -487,6 +487,7 @@ AGREEMENT_TREES = {
                                                         ("g", "gi", [("q", "calc2", {"type": "calculate", "label": None, "bind": {"type": "string", "calculate": "2"}})])]), ("q", "v")]),
     "flat groups": ("data", [("g", "fg", [("q", "fa"), ("g", "fh", [("q", "fb")])]), ("q", "fz")]),
     "flat group and repeat": ("data", [("g", "fg", [("q", "fa")]), ("r", "kids", [("q", "kname")]), ("q", "fz")]),
+    "groups and repeats without rows": ("data", [("g", "empty_g", []), ("r", "empty_r", []), ("g", "outer", [("g", "inner_empty", []), ("q", "x")]), ("r", "rr", [("r", "rr_empty", [])]), ("q", "last")]),
 }
 
 
